@@ -55,6 +55,7 @@ type c20Info struct {
 }
 
 func runC20(c c20Case) (*vstat.Failure, c20Info) {
+	vstat.Begin(c)
 	var info c20Info
 	f := vstat.Catch(func() *vstat.Failure {
 		tag := uniq()
